@@ -20,6 +20,7 @@ type Run struct {
 	Reached  []string
 	Obs      []string
 	KnownHit []string
+	Notes    []string // native only: messages of recovered panics
 	seq      map[string]int
 }
 
@@ -151,6 +152,7 @@ func Panics(f func()) (panicked bool) {
 				panic(r)
 			}
 			panicked = true
+			cur.Notes = append(cur.Notes, fmt.Sprint(r))
 		}
 	}()
 	f()
